@@ -238,10 +238,18 @@ def load_raw(path):
 # byte-stream I/O scenarios (C14, C16)
 
 def io_layout_steps(n, start, size, fam):
+    """reach (start, size) with stream operations only, never emptying the buffer by a read on the way (an
+    implementation that re-centres an emptied buffer still reaches the layout): read() advances the front,
+    consume() (a drain) removes without moving it"""
     st = [{"op": "new"}]
     if n > 0 and start > 0:
-        st.append({"op": "write", "vals": [7] * start, "fam": fam})
-        st.append({"op": "read", "i": start, "fam": fam})
+        if start < n:
+            st.append({"op": "write", "vals": [7] * (start + 1), "fam": fam})
+            st.append({"op": "read", "i": start, "fam": fam})
+            st.append({"op": "consume", "i": 1, "fam": fam})
+        else:
+            st.append({"op": "write", "vals": [7] * start, "fam": fam})
+            st.append({"op": "read", "i": start, "fam": fam})
     if size > 0:
         st.append({"op": "write", "vals": [k + 1 for k in range(size)], "fam": fam})
     return st
